@@ -113,31 +113,100 @@ def run(ck):
 
     # ---- O2
     loops = [l for l in find_loops(fn)]
-    ck.require(len(loops) == 1 and loops[0].get("k") == "for", "format() no longer has exactly one iterator loop")
-    loop = loops[0]
-    itv = loop["init"]["vars"][0] if isinstance(loop.get("init"), dict) and loop["init"].get("k") == "decl" else None
-    ck.require(itv is not None, "iterator loop not recognised")
-    itdecl = itv["decl"]
-    start = skip_copies(itv.get("init"))
-    cont = skip_copies(start.get("obj")) if is_call(start, ("cbegin", "begin", "constBegin")) else None
-    okc = False
-    if isinstance(cont, dict) and cont.get("k") == "ref":
-        _, cv = local_var(fn, cont["decl"])
-        okc = cv is not None and is_call(cv.get("init"), LM + "::attributes") and obj_is_param(skip_copies(cv["init"]), fn, 0)
-    cnd = skip_copies(loop.get("cond"))
-    okshape = okc and isinstance(cnd, dict) and cnd.get("op") == "!=" and any(is_call(a, ("cend", "end", "constEnd")) for a in cnd.get("args", [])) and skip_copies(loop.get("inc")).get("op") == "++"
-    ck.ob("C18-O2", sitestr(fn, loop), True if okshape else None, "the loop visits every custom attribute (lmsg.attributes(), begin..end)" if okshape else "attribute loop not recognised", key="format|loop-shape")
-    key_of_it = lambda n: is_call(n, "key") and is_ref_to(skip_copies(n).get("obj"), itdecl)
-    val_of_it = lambda n: is_call(n, "value") and is_ref_to(skip_copies(n).get("obj"), itdecl)
-    inloop = [s for s in sets if any(a.get("id") == loop["id"] for a in fn.ancestors(s["node"]))]
-    generic = [s for s in inloop if key_of_it(s["keynode"]) and is_call(s["value"], "QJsonValue::fromVariant") and val_of_it(skip_copies(s["value"])["args"][0])]
-    ck.require(len(generic) >= 1, "the loop no longer inserts (it.key(), fromVariant(it.value()))")
-    for s in inloop:
-        if s not in generic:
-            ck.ob("C18-O2", sitestr(fn, s["node"]), None, "unrecognised insertion in the attribute loop: %s" % describe(s["node"])[:100])
-    extra_decl = generic[0]["obj"]
-    gsites = set(g.sites_of_nodes([s["node"] for s in generic]))
-    condsite = g.site_of(loop["cond"])
+    # bulk import: `auto extra = QJsonObject::fromVariantHash(lmsg.attributes());` followed by removals of the routed names
+    bulk = []
+    for dn in fn.find(lambda n: n.get("k") == "decl"):
+        for v in dn.get("vars", []):
+            i = skip_copies(v.get("init")) if isinstance(v.get("init"), dict) else None
+            while isinstance(i, dict) and i.get("k") in ("cast", "construct") and (i.get("e") or (i.get("args") and len(i["args"]) == 1)):
+                i = skip_copies(i.get("e") or i["args"][0])
+            if is_call(i, ("QJsonObject::fromVariantHash", "QJsonObject::fromVariantMap")) and i.get("args"):
+                src = skip_copies(deref_local(fn, i["args"][0]))
+                if is_call(src, LM + "::attributes") and obj_is_param(src, fn, 0):
+                    bulk.append((dn, v, i))
+    iter_loops = [l for l in loops if l.get("k") == "for" and isinstance(l.get("init"), dict) and l["init"].get("k") == "decl"]
+    bulk_mode = bool(bulk) and not iter_loops
+    removed = {}
+    if bulk_mode:
+        ck.require(len(bulk) == 1, "format() imports the attributes %d times" % len(bulk))
+        loop, bvar, bcall = bulk[0]
+        extra_decl = bvar["decl"]
+        itdecl = None
+        key_of_it = val_of_it = lambda n: False
+        ck.ob("C18-O2", sitestr(fn, bcall), True, "all custom attributes are imported at once (QJsonObject::fromVariantHash(lmsg.attributes()): every value through QJsonValue::fromVariant)", key="format|loop-shape")
+        generic = [{"node": bcall, "obj": extra_decl, "key": None, "keynode": None, "value": None}]
+        inloop = []
+        gsites = {g.site_of(bcall)}
+        condsite = None
+        for n in fn.calls():
+            if n.get("ck") == "member" and name_is(n.get("callee"), ("QJsonObject::remove", "QJsonObject::take")) and is_ref_to(skip_copies(n.get("obj")), extra_decl) and n.get("args"):
+                a0 = skip_copies(n["args"][0])
+                nm = const_str(a0)
+                names = None
+                encl = enclosing_loops(fn, n)
+                if nm is not None:
+                    names = {nm}
+                elif a0.get("k") == "ref" and encl and encl[0].get("k") == "rangefor" and a0.get("decl") == encl[0]["var"]["decl"]:
+                    rng = skip_copies(encl[0].get("range"))
+                    if is_call(rng, ("qAsConst", "std::as_const")) and rng.get("args"):
+                        rng = skip_copies(rng["args"][0])
+                    tab = None
+                    if rng.get("k") == "ref":
+                        gv = F.globals.get(rng.get("decl"))
+                        init = gv.get("init") if gv else None
+                        if init is None:
+                            _, lv_ = local_var(fn, rng.get("decl"))
+                            init = lv_.get("init") if lv_ else None
+                        vals = [const_str(e_) for e_ in walk(init)] if isinstance(init, dict) else []
+                        tab = {v_ for v_ in vals if v_ is not None} or None
+                    names = tab
+                    if any(x.get("k") in ("break", "continue", "return") for x in walk(encl[0].get("body"))):
+                        names = None
+                if names is None:
+                    ck.ob("C18-O2", sitestr(fn, n), None, "removal from extra with a key that is not a constant or an element of a constant table: %s" % describe(n)[:100])
+                    continue
+                site = g.site_of(encl[0]["desugar"]["cond"]) if encl and encl[0].get("k") == "rangefor" else g.site_of(n)
+                always = g.must_pass({site}) and g.can_reach(list(gsites)[0], site)
+                for nm_ in names:
+                    removed[nm_] = removed.get(nm_, False) or always
+    else:
+        ck.require(len(loops) == 1 and loops[0].get("k") == "for", "format() no longer has exactly one iterator loop")
+        loop = loops[0]
+        itv = loop["init"]["vars"][0] if isinstance(loop.get("init"), dict) and loop["init"].get("k") == "decl" else None
+        ck.require(itv is not None, "iterator loop not recognised")
+        itdecl = itv["decl"]
+        start = skip_copies(itv.get("init"))
+        cont = skip_copies(start.get("obj")) if is_call(start, ("cbegin", "begin", "constBegin")) else None
+        okc = False
+        if isinstance(cont, dict) and cont.get("k") == "ref":
+            _, cv = local_var(fn, cont["decl"])
+            okc = cv is not None and is_call(cv.get("init"), LM + "::attributes") and obj_is_param(skip_copies(cv["init"]), fn, 0)
+        cnd = skip_copies(loop.get("cond"))
+        okshape = okc and isinstance(cnd, dict) and cnd.get("op") == "!=" and any(is_call(a, ("cend", "end", "constEnd")) for a in cnd.get("args", [])) and skip_copies(loop.get("inc")).get("op") == "++"
+        ck.ob("C18-O2", sitestr(fn, loop), True if okshape else None, "the loop visits every custom attribute (lmsg.attributes(), begin..end)" if okshape else "attribute loop not recognised", key="format|loop-shape")
+        key_of_it = lambda n: is_call(n, "key") and is_ref_to(skip_copies(n).get("obj"), itdecl)
+        val_of_it = lambda n: is_call(n, "value") and is_ref_to(skip_copies(n).get("obj"), itdecl)
+        inloop = [s for s in sets if any(a.get("id") == loop["id"] for a in fn.ancestors(s["node"]))]
+        generic = [s for s in inloop if key_of_it(s["keynode"]) and is_call(s["value"], "QJsonValue::fromVariant") and val_of_it(skip_copies(s["value"])["args"][0])]
+        ck.require(len(generic) >= 1, "the loop no longer inserts (it.key(), fromVariant(it.value()))")
+        for s in inloop:
+            if s not in generic:
+                ck.ob("C18-O2", sitestr(fn, s["node"]), None, "unrecognised insertion in the attribute loop: %s" % describe(s["node"])[:100])
+        extra_decl = generic[0]["obj"]
+        gsites = set(g.sites_of_nodes([s["node"] for s in generic]))
+        condsite = g.site_of(loop["cond"])
+    # the formatter's own keys under extra must be written before the attributes are imported: a later write replaces a custom
+    # attribute of the same name (its value is no longer intact)
+    for s in sets:
+        if s["obj"] == extra_decl and s["key"] is not None and s not in generic:
+            ssite = g.site_of(s["node"])
+            after = any(g.can_reach(gs, ssite) for gs in gsites)
+            guard = lambda n, k_=s["key"]: is_call(n, ("QJsonObject::contains",)) and is_ref_to(skip_copies(skip_copies(n).get("obj")), extra_decl) and const_str(skip_copies(n)["args"][0]) == k_
+            guarded = after and ssite not in g.live(g.projector(atom_eq(guard, True)))
+            ck.ob("C18-O2", sitestr(fn, s["node"]), (not after) or guarded, "the formatter's own extra['%s'] is written before the custom attributes are copied (a custom attribute of that name keeps its value)" % s["key"] if not after else
+                  "extra['%s'] is only written when no custom attribute of that name is present" % s["key"] if guarded else
+                  "extra['%s'] is written after the custom attributes were copied in: a custom attribute named '%s' is replaced by the formatter's own value and is lost" % (s["key"], s["key"]),
+                  key="format|own-key-after-import|%s" % s["key"])
     # names compared with it.key()
     cmps = {}
     for n in fn.calls():
@@ -187,9 +256,14 @@ def run(ck):
             ms_ = membership(n)
             if ms_ and not any(x.get("id") in members for x in fn.ancestors(n)):
                 members[n["id"]] = ms_
-    compared = sorted({v[0] for v in cmps.values()} | {x for v in members.values() for x in v})
+    compared = sorted({v[0] for v in cmps.values()} | {x for v in members.values() for x in v} | set(removed))
 
     def goes_to_extra(name):
+        if bulk_mode:
+            if name in removed:
+                return (False, True) if removed[name] else (True, True)
+            return True, False
+
         def atom(n):
             if n.get("id") in cmps:
                 s, op = cmps[n["id"]]
